@@ -272,6 +272,10 @@ var c17Stmts = []c17Stmt{
 	{"MAP", "mapscripts MAP {\n\tT1: SA\n\tT2 {\n\t\tmsgbox(\"text of MAP\")\n\t\tif (flag(M1)) {\n\t\t\tz\n\t\t}\n\t}\n\tT3 [\n\t\tVAR_1, 0: SB\n\t\tVAR_1, 1 {\n\t\t\tmsgbox(\"shared text\")\n\t\t}\n\t]\n}\n", regexp.MustCompile(`^(MAP|MAP_T\d+(_\d+)*)$`), false},
 	{"SC", "script SC {\n\tbraillemessage(braille\"shared text\")\n\tmsgbox(custom\"text of SA$\")\n\tmsgbox(\"text of SC\")\n}\n", regexp.MustCompile(`^(SC|SC_\d+)$`), false},
 	{"SD", "script SD {\n\tif (flag(D1)) {\n\t\tgoto(SB_2)\n\t}\n\tq\n\tSB_2:\n\tr\n\tSA_3(global):\n\tt\n\tSA_9:\n\tSB_1:\n\tu\n}\n", regexp.MustCompile(`^(SD|SD_\d+|SB_[129]|SA_[39])$`), false},
+	// statements whose content is selected by a poryswitch (compiled with CV=A): TP1 takes its A case, TP2 has no A case
+	{"TP1", "text TP1 {\n\tporyswitch(CV) {\n\t\tA: \"tp1 a\"\n\t\t_: \"tp1 other\"\n\t}\n}\n", regexp.MustCompile(`^TP1$`), true},
+	{"TP2", "text TP2 {\n\tporyswitch(CV) {\n\t\tB: ascii\"tp2 b\"\n\t\t_: \"tp2 other\"\n\t}\n}\n", regexp.MustCompile(`^TP2$`), true},
+	{"MP", "movement MP {\n\tmp1\n\tporyswitch(CV) {\n\t\tB: mp_b\n\t\t_: mp_other\n\t}\n}\n", regexp.MustCompile(`^MP$`), true},
 	{"RAW", "raw `\nRawLabel:\n\t.byte 1\n`\n", nil, true},
 	{"CONST", "const UNUSED_K = 77\n", nil, true},
 }
@@ -365,7 +369,7 @@ func c17Context(r *harness.Run, tier string) {
 		}
 		alone[st.name] = map[bool]string{}
 		for _, opt := range []bool{true, false} {
-			res := comp.Compile(st.src, comp.Opts{Optimize: opt, FontPath: c17CtxFont})
+			res := comp.Compile(st.src, comp.Opts{Optimize: opt, FontPath: c17CtxFont, Switches: map[string]string{"CV": "A"}})
 			if res.Err != nil {
 				r.Note("context statement %s rejected alone: %v", st.name, res.Err)
 				continue
@@ -389,7 +393,7 @@ func c17Context(r *harness.Run, tier string) {
 			}
 			src := strings.Join(parts, "\n")
 			for _, opt := range []bool{true, false} {
-				res := comp.Compile(src, comp.Opts{Optimize: opt, FontPath: c17CtxFont})
+				res := comp.Compile(src, comp.Opts{Optimize: opt, FontPath: c17CtxFont, Switches: map[string]string{"CV": "A"}})
 				r.Add("evaluations", 1)
 				r.Add("contexts", 1)
 				if len(others) >= 1 {
@@ -409,7 +413,7 @@ func c17Context(r *harness.Run, tier string) {
 					r.Report(harness.Violation{Sig: "C17:context:" + c17Stmts[x].name, Summary: fmt.Sprintf("the code emitted for %s depends on its neighbours %v (position %d, optimize=%v): %s", c17Stmts[x].name, names, pos, opt, firstDiff(got, want)),
 						Replay: map[string]interface{}{"source": src, "statement": c17Stmts[x].name, "optimize": opt, "alone": want, "in_context": got},
 						Recheck: func() bool {
-							return c17Section(comp.Compile(s2, comp.Opts{Optimize: opt, FontPath: c17CtxFont}).Out, c17Stmts[x]) != want
+							return c17Section(comp.Compile(s2, comp.Opts{Optimize: opt, FontPath: c17CtxFont, Switches: map[string]string{"CV": "A"}}).Out, c17Stmts[x]) != want
 						}})
 				}
 			}
@@ -733,5 +737,5 @@ func runC17(tier string) int {
 		"'fresh process' baselines are computed by subprocesses that run exactly one compilation",
 		"context independence compares a statement's emitted section with every hoisted text / movement label replaced by the data it denotes (numbering and sharing are free, content is not)")
 	return r.Finish(r.Get("evaluations"), r.Get("nontrivial"),
-		"(1) schedules: for every corpus input (many-chunk scripts, label clashes, unknown-font errors against 2- and 3-font configs, all small 'general' programs, optimize on/off) every execution with <= d deviating map-iteration choice points (all n! orders for n <= 4, else reverse, rotations, adjacent transpositions), each run twice; (2) histories: every sequence of <= k compilations (k = 2 over all 576 actions, 3 over 72, thorough: 4 and 5 over 18) over 9 inputs x optimize x 2 font files x default font id {config default, -f} x default line length {config, -l} x 2 switch assignments x 2 command configs sharing the maps, each result compared with the same compilation as first action of a fresh process; (3) every top-level statement of a 6-statement family among every ordered selection of <= m other statements at every position; states/transitions = executions; non-trivial = a deviating schedule, a history of length >= 2 or a context with a neighbour")
+		"(1) schedules: for every corpus input (many-chunk scripts, label clashes, unknown-font errors against 2- and 3-font configs, all small 'general' programs, optimize on/off) every execution with <= d deviating map-iteration choice points (all n! orders for n <= 4, else reverse, rotations, adjacent transpositions), each run twice; (2) histories: every sequence of <= k compilations (k = 2 over all 576 actions, 3 over 72, thorough: 4 and 5 over 18) over 9 inputs x optimize x 2 font files x default font id {config default, -f} x default line length {config, -l} x 2 switch assignments x 2 command configs sharing the maps, each result compared with the same compilation as first action of a fresh process; (3) every top-level statement of a 16-statement family (scripts, texts, movements, marts, mapscripts, raw, const; texts and a movement whose content a poryswitch selects; statements named by the dictionary) among every ordered selection of <= m other statements at every position; states/transitions = executions; non-trivial = a deviating schedule, a history of length >= 2 or a context with a neighbour")
 }
